@@ -20,9 +20,9 @@ polyhedralForward :  h := vectorDifference a v / vectorDifference a p
 polyhedralInverse :  k := vectorDifference a p;  t := safeAcos (h * k) / safeAcos k;  slerp a p t
 ```
 Over the reals `vectorDifference a b = sin (∠(a,b) / 2)` for unit vectors (both branches, see
-`vectorDifference_far_sq` / `vectorDifference_near_sq` below), so with `AV = ∠(a,v)`, `AP = ∠(a,p)`:
+`vectorDifference_near` / `vectorDifference_far` / `vectorDifferenceR_eq` below), so with `AV = ∠(a,v)`, `AP = ∠(a,p)`:
 `h = sin (AV/2) / sin (AP/2)`, `k = sin (AP/2)`, `t = safeAcos (h k) / safeAcos k` and the inverse returns the
-point at arc length `t · AP` from `a` on the great circle `a → p` (`slerpR_unit`, `slerpR_dot_left`).
+point at arc length `t · AP` from `a` on the great circle `a → p` (`slerpR_spec`, `slerpR_angle`).
 
 What is proved here (all in exact real arithmetic; nothing about floating-point rounding):
 * `safeAcosR` is the real twin of `safeAcos`, with the *generated* switch constant;
@@ -30,7 +30,12 @@ What is proved here (all in exact real arithmetic; nothing about floating-point 
 * `0 ≤ 2 arcsin x - (2x + x³/3) ≤ x⁵/5` on `[0,1/2]`, hence `|safeAcosR x - 2 arcsin x| ≤ 2.1e-16` on `[0,1]`;
 * the radial round trip `t · AP = AV` with the exact `2 arcsin`, and `|t · AP - AV| ≤ 5e-16` with `safeAcosR`;
 * `slerp` over `ℝ` returns a unit vector at angle `t γ` from `a` (and `(1-t) γ` from `p`);
-* both branches of `vectorDifference` equal `sin (γ/2)` (as squares, plus sign) for unit vectors.
+* both branches of `vectorDifference` equal `sin (γ/2)` for unit vectors at angle `γ < π`;
+* at the level of vectors: for `v = slerp a p s` on the arc, the inverse's `slerp a p t` returns `v` exactly with
+  `2 arcsin` (`radial_roundtrip_vector`) and a unit vector within `5e-16` of `v` with `safeAcosR`
+  (`radial_roundtrip_vector_safeAcos`).
+The real twins `slerpR`, `angleR`, `vectorDifferenceR` are transcriptions of the model's expression trees (not tied
+by `rfl`, the model's `V3` has `Float` fields); `safeAcosR` is tied to the model through `safeAcosG` by `rfl`.
 
 What is NOT proved: the angular part of the round trip (the area-ratio / `atan2` formula that recovers the point
 `p` on the edge `BC`), and any statement about `Float` rounding. -/
@@ -48,6 +53,18 @@ noncomputable def safeAcosSwitch : ℝ := ((safeAcosSwitchQ : ℚ) : ℝ)
 /-- real twin of `A5.safeAcos`: the same expression tree, `Float` operations replaced by real ones -/
 noncomputable def safeAcosR (x : ℝ) : ℝ :=
   if x < safeAcosSwitch then 2 * x + x * x * x / 3 else Real.arccos (1 - 2 * x * x)
+
+/-- generic twin of `safe_acos`: one expression tree, instantiated at `Float` by the model and at `ℝ` here -/
+def safeAcosG {α : Type} [Add α] [Sub α] [Mul α] [Div α] [LT α] [DecidableRel (α := α) (· < ·)]
+    (acos : α → α) (one two three thr : α) (x : α) : α :=
+  if x < thr then two * x + x * x * x / three else acos (one - two * x * x)
+
+/-- the float model is the generic twin at `Float` (by `rfl`) -/
+theorem safeAcos_tie (x : Float) :
+    safeAcos x = safeAcosG Float.acos 1.0 2.0 3.0 (fc Gen.SAFE_ACOS_SWITCH) x := rfl
+
+/-- `safeAcosR` is the generic twin at `ℝ`, with `arccos` and the exact value of the generated switch -/
+theorem safeAcosR_tie (x : ℝ) : safeAcosR x = safeAcosG Real.arccos 1 2 3 safeAcosSwitch x := rfl
 
 /-- kernel-checked on the generated constant: it is the `f64` nearest to `1e-3`
 (`1152921504606847 · 2⁻⁶⁰`), in particular it lies in `[1e-3, 1.001e-3]`. -/
@@ -266,5 +283,530 @@ theorem safeAcos_branches_agree {x : ℝ} (hx0 : 0 ≤ x) (hx1 : x ≤ 1 / 2) :
   rw [arccos_model_branch hx0 (by linarith)]
   have e : 2 * x + x * x * x / 3 = 2 * x + x ^ 3 / 3 := by ring
   rw [e]; exact two_arcsin_series_abs hx0 hx1
+
+/-! ## 4. the radial round trip
+
+`AV` = arc from the triangle vertex `A` to the point `v`, `AP` = arc from `A` to the point `p` where the great
+circle `A v` meets the edge `BC`.  Forward: `h = sin (AV/2) / sin (AP/2)`.  Inverse: `k = sin (AP/2)`,
+`t = safeAcos (h k) / safeAcos k`, result = point at arc `t · AP` from `A` towards `p`. -/
+
+/-- basic facts about `k = sin (AP/2)` and `h = sin (AV/2) / sin (AP/2)` -/
+theorem radial_setup {AV AP : ℝ} (h0 : 0 ≤ AV) (h1 : AV ≤ AP) (h2 : 0 < AP) (h3 : AP ≤ π) :
+    0 < Real.sin (AP / 2) ∧ Real.sin (AP / 2) ≤ 1 ∧
+    Real.sin (AV / 2) / Real.sin (AP / 2) * Real.sin (AP / 2) = Real.sin (AV / 2) ∧
+    0 ≤ Real.sin (AV / 2) ∧ Real.sin (AV / 2) ≤ Real.sin (AP / 2) ∧
+    2 * Real.arcsin (Real.sin (AV / 2)) = AV ∧ 2 * Real.arcsin (Real.sin (AP / 2)) = AP := by
+  have hπ := Real.pi_pos
+  have hk : 0 < Real.sin (AP / 2) := Real.sin_pos_of_pos_of_lt_pi (by linarith) (by linarith)
+  refine ⟨hk, Real.sin_le_one _, div_mul_cancel₀ _ hk.ne', ?_, ?_, ?_, ?_⟩
+  · exact Real.sin_nonneg_of_nonneg_of_le_pi (by linarith) (by linarith)
+  · exact Real.sin_le_sin_of_le_of_le_pi_div_two (by linarith) (by linarith) (by linarith)
+  · rw [Real.arcsin_sin (by linarith) (by linarith)]; ring
+  · rw [Real.arcsin_sin (by linarith) (by linarith)]; ring
+
+/-- `0 ≤ h ≤ 1`: the forward radial coordinate is a valid barycentric weight -/
+theorem radial_h_mem {AV AP : ℝ} (h0 : 0 ≤ AV) (h1 : AV ≤ AP) (h2 : 0 < AP) (h3 : AP ≤ π) :
+    0 ≤ Real.sin (AV / 2) / Real.sin (AP / 2) ∧ Real.sin (AV / 2) / Real.sin (AP / 2) ≤ 1 := by
+  obtain ⟨hk, _, _, hv0, hv1, _, _⟩ := radial_setup h0 h1 h2 h3
+  exact ⟨div_nonneg hv0 hk.le, (div_le_one hk).mpr hv1⟩
+
+/-- **Radial round trip, exact branch.**  With `2 arcsin` (= `arccos (1 - 2x²)`, the function `safe_acos`
+approximates) the inverse recovers the arc length of the forward image exactly. -/
+theorem radial_roundtrip_exact {AV AP : ℝ} (h0 : 0 ≤ AV) (h1 : AV ≤ AP) (h2 : 0 < AP) (h3 : AP ≤ π) :
+    let k := Real.sin (AP / 2)
+    let h := Real.sin (AV / 2) / Real.sin (AP / 2)
+    (2 * Real.arcsin (h * k)) / (2 * Real.arcsin k) * AP = AV := by
+  intro k h
+  obtain ⟨_, _, hhk, _, _, eV, eP⟩ := radial_setup h0 h1 h2 h3
+  show (2 * Real.arcsin (Real.sin (AV / 2) / Real.sin (AP / 2) * Real.sin (AP / 2))) /
+    (2 * Real.arcsin (Real.sin (AP / 2))) * AP = AV
+  rw [hhk, eV, eP]
+  exact div_mul_cancel₀ _ h2.ne'
+
+/-- the interpolation parameter is `AV / AP` -/
+theorem radial_t_exact {AV AP : ℝ} (h0 : 0 ≤ AV) (h1 : AV ≤ AP) (h2 : 0 < AP) (h3 : AP ≤ π) :
+    (2 * Real.arcsin (Real.sin (AV / 2) / Real.sin (AP / 2) * Real.sin (AP / 2))) /
+      (2 * Real.arcsin (Real.sin (AP / 2))) = AV / AP := by
+  obtain ⟨_, _, hhk, _, _, eV, eP⟩ := radial_setup h0 h1 h2 h3
+  rw [hhk, eV, eP]
+
+/-- absolute perturbation of a ratio -/
+theorem ratio_perturb_abs {AV AP s1 s2 ε : ℝ} (h0 : 0 ≤ AV) (hε : ε < AP)
+    (e1 : |s1 - AV| ≤ ε) (e2 : |s2 - AP| ≤ ε) : |s1 / s2 * AP - AV| ≤ ε * (AP + AV) / (AP - ε) := by
+  have hε0 : 0 ≤ ε := (abs_nonneg _).trans e1
+  have hAP : 0 ≤ AP := by linarith
+  have hs2 : AP - ε ≤ s2 := by have := (abs_le.mp e2).1; linarith
+  have hs2p : 0 < s2 := by linarith
+  have e : s1 / s2 * AP - AV = ((s1 - AV) * AP - AV * (s2 - AP)) / s2 := by field_simp; ring
+  rw [e, abs_div, abs_of_pos hs2p]
+  refine div_le_div₀ (by positivity) ?_ (by linarith) hs2
+  calc |(s1 - AV) * AP - AV * (s2 - AP)| ≤ |(s1 - AV) * AP| + |AV * (s2 - AP)| := abs_sub _ _
+    _ = |s1 - AV| * AP + AV * |s2 - AP| := by rw [abs_mul, abs_mul, abs_of_nonneg hAP, abs_of_nonneg h0]
+    _ ≤ ε * AP + AV * ε := add_le_add (mul_le_mul_of_nonneg_right e1 hAP) (mul_le_mul_of_nonneg_left e2 h0)
+    _ = ε * (AP + AV) := by ring
+
+/-- relative perturbation of a ratio (both terms are under-estimated by a relative amount `≤ η`) -/
+theorem ratio_perturb_rel {AV AP d1 d2 η : ℝ} (h0 : 0 ≤ AV) (h2 : 0 < AP) (hη0 : 0 ≤ η) (hη : η < 1)
+    (hd1 : 0 ≤ d1) (hd1' : d1 ≤ η * AV) (hd2 : 0 ≤ d2) (hd2' : d2 ≤ η * AP) :
+    |(AV - d1) / (AP - d2) * AP - AV| ≤ AV * η / (1 - η) := by
+  have hs2 : AP * (1 - η) ≤ AP - d2 := by linarith
+  have hpos : 0 < AP * (1 - η) := mul_pos h2 (by linarith)
+  have hs2p : 0 < AP - d2 := by linarith
+  have e : (AV - d1) / (AP - d2) * AP - AV = (AV * d2 - d1 * AP) / (AP - d2) := by field_simp; ring
+  have e' : AV * η / (1 - η) = (η * AV * AP) / (AP * (1 - η)) := by
+    have : (1 - η) ≠ 0 := by linarith
+    field_simp
+  rw [e, e', abs_div, abs_of_pos hs2p]
+  refine div_le_div₀ (by positivity) ?_ hpos hs2
+  rw [abs_le]
+  have p1 : AV * d2 ≤ AV * (η * AP) := mul_le_mul_of_nonneg_left hd2' h0
+  have p2 : d1 * AP ≤ η * AV * AP := mul_le_mul_of_nonneg_right hd1' h2.le
+  have p3 : 0 ≤ AV * d2 := mul_nonneg h0 hd2
+  have p4 : 0 ≤ d1 * AP := mul_nonneg hd1 h2.le
+  constructor <;> nlinarith
+
+/-- **Radial round trip with `safe_acos`.**  With the real twin `safeAcosR` of the code (series below the
+switch, `arccos (1 - 2x²)` above) the recovered arc `t · AP` differs from `AV` by at most `5e-16`, uniformly in
+`0 ≤ AV ≤ AP ≤ π`, `AP > 0` (exact real arithmetic; no floating-point rounding is modelled here). -/
+theorem radial_roundtrip_safeAcos {AV AP : ℝ} (h0 : 0 ≤ AV) (h1 : AV ≤ AP) (h2 : 0 < AP) (h3 : AP ≤ π) :
+    let k := Real.sin (AP / 2)
+    let h := Real.sin (AV / 2) / Real.sin (AP / 2)
+    |safeAcosR (h * k) / safeAcosR k * AP - AV| ≤ 5e-16 := by
+  intro k h
+  obtain ⟨hk, hk1, hhk, hv0, hv1, eV, eP⟩ := radial_setup h0 h1 h2 h3
+  show |safeAcosR (Real.sin (AV / 2) / Real.sin (AP / 2) * Real.sin (AP / 2)) /
+    safeAcosR (Real.sin (AP / 2)) * AP - AV| ≤ 5e-16
+  rw [hhk]
+  obtain ⟨a1, a2⟩ := safeAcosR_bounds hv0 (hv1.trans hk1)
+  obtain ⟨b1, b2⟩ := safeAcosR_bounds hk.le hk1
+  have r1 := safeAcosR_rel hv0 (hv1.trans hk1)
+  have r2 := safeAcosR_rel hk.le hk1
+  rw [eV] at a1 a2 r1
+  rw [eP] at b1 b2 r2
+  refine le_trans ?_ (by norm_num : (5 / 10 ^ 16 : ℝ) ≤ 5e-16)
+  rcases le_or_gt (1 / 1000) AP with hbig | hsmall
+  · -- absolute accuracy 2.1e-16 of both terms
+    have hε : (21 / 10 ^ 17 : ℝ) < AP := by linarith
+    have e1 : |safeAcosR (Real.sin (AV / 2)) - AV| ≤ 21 / 10 ^ 17 := by
+      rw [abs_sub_comm, abs_of_nonneg a1]; exact a2
+    have e2 : |safeAcosR (Real.sin (AP / 2)) - AP| ≤ 21 / 10 ^ 17 := by
+      rw [abs_sub_comm, abs_of_nonneg b1]; exact b2
+    refine (ratio_perturb_abs h0 hε e1 e2).trans ?_
+    rw [div_le_iff₀ (by linarith)]
+    linarith
+  · -- relative accuracy 1.01e-13 of both terms, and `AV ≤ AP < 1e-3`
+    have e : safeAcosR (Real.sin (AV / 2)) / safeAcosR (Real.sin (AP / 2)) * AP - AV
+        = (AV - (AV - safeAcosR (Real.sin (AV / 2)))) / (AP - (AP - safeAcosR (Real.sin (AP / 2)))) * AP - AV := by
+      rw [sub_sub_cancel, sub_sub_cancel]
+    rw [e]
+    refine (ratio_perturb_rel (η := 101 / 10 ^ 15) h0 h2 (by norm_num) (by norm_num) a1 r1 b1 r2).trans ?_
+    rw [div_le_iff₀ (by norm_num)]
+    linarith
+
+/-! ## 5. vectors: `slerp`, `angle`, `vector_difference` over `ℝ` -/
+
+/-- real twin of `A5.V3` -/
+@[ext] structure R3 where
+  x : ℝ
+  y : ℝ
+  z : ℝ
+
+def dotR (a b : R3) : ℝ := a.x * b.x + a.y * b.y + a.z * b.z
+def crossR (a b : R3) : R3 := ⟨a.y * b.z - a.z * b.y, a.z * b.x - a.x * b.z, a.x * b.y - a.y * b.x⟩
+noncomputable def lengthR (v : R3) : ℝ := √(v.x * v.x + v.y * v.y + v.z * v.z)
+noncomputable def normalizeR (v : R3) : R3 :=
+  let len := lengthR v
+  if len = 0 then v else ⟨v.x / len, v.y / len, v.z / len⟩
+def lerpR (a b : R3) (t : ℝ) : R3 := ⟨a.x + t * (b.x - a.x), a.y + t * (b.y - a.y), a.z + t * (b.z - a.z)⟩
+def subR (a b : R3) : R3 := ⟨a.x - b.x, a.y - b.y, a.z - b.z⟩
+def addR (a b : R3) : R3 := ⟨a.x + b.x, a.y + b.y, a.z + b.z⟩
+def scaleR (v : R3) (s : ℝ) : R3 := ⟨v.x * s, v.y * s, v.z * s⟩
+noncomputable def clamp1R (x : ℝ) : ℝ := if x < -1 then -1 else if x > 1 then 1 else x
+
+/-- exact values of the generated switch constants (`1e-12`, `1e-8` in the Rust source) -/
+def slerpSwitchQ : ℚ := Gen.SLERP_SWITCH.toRat
+noncomputable def slerpSwitch : ℝ := ((slerpSwitchQ : ℚ) : ℝ)
+noncomputable def vecdiffSwitch : ℝ := ((Gen.VECDIFF_SWITCH.toRat : ℚ) : ℝ)
+
+theorem slerpSwitchQ_pos : 0 < slerpSwitchQ := by decide +kernel
+theorem slerpSwitch_pos : 0 < slerpSwitch := by
+  unfold slerpSwitch
+  exact_mod_cast slerpSwitchQ_pos
+
+/-- real twin of `A5.v3angle` -/
+noncomputable def angleR (a b : R3) : ℝ :=
+  let cosA := dotR a b / (lengthR a * lengthR b)
+  Real.arccos (clamp1R cosA)
+
+/-- real twin of `A5.slerp` (same expression tree, same small-angle branch) -/
+noncomputable def slerpR (a b : R3) (t : ℝ) : R3 :=
+  let gamma := angleR a b
+  if gamma < slerpSwitch then lerpR a b t
+  else
+    let wa := Real.sin ((1 - t) * gamma) / Real.sin gamma
+    let wb := Real.sin (t * gamma) / Real.sin gamma
+    addR (scaleR a wa) (scaleR b wb)
+
+/-- real twin of `A5.vectorDifference` (the literal `0.5` is the real `1/2`) -/
+noncomputable def vectorDifferenceR (a b : R3) : ℝ :=
+  let mid := normalizeR (lerpR a b (1 / 2))
+  let d := lengthR (crossR a mid)
+  if d < vecdiffSwitch then 1 / 2 * lengthR (subR a b) else d
+
+theorem lengthR_eq (v : R3) : lengthR v = √(dotR v v) := rfl
+
+theorem dotR_self_nonneg (v : R3) : 0 ≤ dotR v v :=
+  add_nonneg (add_nonneg (mul_self_nonneg _) (mul_self_nonneg _)) (mul_self_nonneg _)
+
+theorem lengthR_unit {a : R3} (ha : dotR a a = 1) : lengthR a = 1 := by
+  rw [lengthR_eq, ha, Real.sqrt_one]
+
+/-- Lagrange's identity `|a|²|b|² - (a·b)² = |a × b|²` -/
+theorem lagrange (a b : R3) :
+    dotR a a * dotR b b - dotR a b ^ 2 = dotR (crossR a b) (crossR a b) := by
+  simp only [dotR, crossR]; ring
+
+/-- Cauchy–Schwarz for unit vectors -/
+theorem dotR_unit_mem {a b : R3} (ha : dotR a a = 1) (hb : dotR b b = 1) :
+    -1 ≤ dotR a b ∧ dotR a b ≤ 1 := by
+  have h := lagrange a b
+  rw [ha, hb] at h
+  have h2 := dotR_self_nonneg (crossR a b)
+  exact abs_le.mp ((sq_le_one_iff_abs_le_one _).mp (by linarith))
+
+/-- for unit vectors `angleR` is `arccos` of the dot product -/
+theorem angleR_unit {a b : R3} (ha : dotR a a = 1) (hb : dotR b b = 1) :
+    angleR a b = Real.arccos (dotR a b) ∧ Real.cos (angleR a b) = dotR a b ∧
+      0 ≤ angleR a b ∧ angleR a b ≤ π := by
+  obtain ⟨h1, h2⟩ := dotR_unit_mem ha hb
+  have e : angleR a b = Real.arccos (dotR a b) := by
+    unfold angleR clamp1R
+    simp only [lengthR_unit ha, lengthR_unit hb, mul_one, div_one]
+    rw [if_neg (by linarith), if_neg (by linarith)]
+  rw [e]
+  exact ⟨rfl, Real.cos_arccos h1 h2, Real.arccos_nonneg _, Real.arccos_le_pi _⟩
+
+/-- the trigonometric core of `slerp`: with `S = sin γ`, `C = cos γ`, `s = sin tγ`, `c = cos tγ` -/
+theorem slerp_core {S C s c : ℝ} (h1 : S ^ 2 + C ^ 2 = 1) (h2 : s ^ 2 + c ^ 2 = 1) (hS : S ≠ 0) :
+    ((S * c - C * s) / S) ^ 2 + (s / S) ^ 2 + 2 * ((S * c - C * s) / S) * (s / S) * C = 1 ∧
+    (S * c - C * s) / S + s / S * C = c ∧
+    (S * c - C * s) / S * C + s / S = c * C + s * S := by
+  refine ⟨?_, ?_, ?_⟩
+  · field_simp
+    linear_combination S ^ 2 * h2 - s ^ 2 * h1
+  · field_simp
+    ring
+  · field_simp
+    linear_combination (-s) * h1
+
+/-- bilinear expansion of the dot products of `wa·a + wb·b` -/
+theorem dotR_comb (a b : R3) (wa wb : ℝ) :
+    dotR (addR (scaleR a wa) (scaleR b wb)) (addR (scaleR a wa) (scaleR b wb))
+      = wa ^ 2 * dotR a a + wb ^ 2 * dotR b b + 2 * wa * wb * dotR a b ∧
+    dotR a (addR (scaleR a wa) (scaleR b wb)) = wa * dotR a a + wb * dotR a b ∧
+    dotR b (addR (scaleR a wa) (scaleR b wb)) = wa * dotR a b + wb * dotR b b := by
+  simp only [dotR, addR, scaleR]
+  exact ⟨by ring, by ring, by ring⟩
+
+/-- **`slerp` over `ℝ`.**  For unit vectors `a`, `p` at angle `γ ∈ [SLERP_SWITCH, π)` the result of
+`slerp a p t` is a unit vector whose inner products with `a` and `p` are `cos (tγ)` and `cos ((1-t)γ)`:
+it is the point of the great circle through `a` and `p` at arc `tγ` from `a`.  (Any real `t`.) -/
+theorem slerpR_spec {a p : R3} (t : ℝ) (ha : dotR a a = 1) (hp : dotR p p = 1)
+    (hγ : slerpSwitch ≤ angleR a p) (hπ : angleR a p < π) :
+    dotR (slerpR a p t) (slerpR a p t) = 1 ∧
+    dotR a (slerpR a p t) = Real.cos (t * angleR a p) ∧
+    dotR p (slerpR a p t) = Real.cos ((1 - t) * angleR a p) := by
+  obtain ⟨_, hcos, _, _⟩ := angleR_unit ha hp
+  have hpos : 0 < angleR a p := lt_of_lt_of_le slerpSwitch_pos hγ
+  have hS : Real.sin (angleR a p) ≠ 0 := (Real.sin_pos_of_pos_of_lt_pi hpos hπ).ne'
+  unfold slerpR
+  simp only [if_neg (not_lt.mpr hγ)]
+  generalize angleR a p = γ at *
+  have e : (1 - t) * γ = γ - t * γ := by ring
+  obtain ⟨d1, d2, d3⟩ := dotR_comb a p (Real.sin ((1 - t) * γ) / Real.sin γ) (Real.sin (t * γ) / Real.sin γ)
+  obtain ⟨c1, c2, c3⟩ := slerp_core (Real.sin_sq_add_cos_sq γ) (Real.sin_sq_add_cos_sq (t * γ)) hS
+  rw [d1, d2, d3, ha, hp, ← hcos, e, Real.sin_sub, Real.cos_sub]
+  refine ⟨?_, ?_, ?_⟩
+  · refine Eq.trans ?_ c1; ring
+  · refine Eq.trans ?_ c2; ring
+  · refine (Eq.trans ?_ c3).trans ?_ <;> ring
+
+/-- for `0 ≤ t ≤ 1` the angle from `a` to `slerp a p t` is `t γ` -/
+theorem slerpR_angle {a p : R3} {t : ℝ} (ht0 : 0 ≤ t) (ht1 : t ≤ 1) (ha : dotR a a = 1) (hp : dotR p p = 1)
+    (hγ : slerpSwitch ≤ angleR a p) (hπ : angleR a p < π) :
+    angleR a (slerpR a p t) = t * angleR a p := by
+  obtain ⟨hu, hd, _⟩ := slerpR_spec t ha hp hγ hπ
+  have hpos : 0 < angleR a p := lt_of_lt_of_le slerpSwitch_pos hγ
+  rw [(angleR_unit ha hu).1, hd, Real.arccos_cos (by positivity)]
+  have : t * angleR a p ≤ 1 * angleR a p := mul_le_mul_of_nonneg_right ht1 hpos.le
+  linarith
+
+/-- the small-angle branch of `slerp` (plain `lerp`): the squared norm of the result is
+`1 - 2t(1-t)(1 - a·p)`, so for `0 ≤ t ≤ 1` and `γ < SLERP_SWITCH` it is within `γ²/4` of `1`. -/
+theorem lerpR_norm_sq (a p : R3) (t : ℝ) (ha : dotR a a = 1) (hp : dotR p p = 1) :
+    dotR (lerpR a p t) (lerpR a p t) = 1 - 2 * t * (1 - t) * (1 - dotR a p) := by
+  simp only [dotR, lerpR] at *
+  linear_combination ((1 - t) ^ 2) * ha + t ^ 2 * hp
+
+theorem lerpR_norm_sq_bounds {a p : R3} {t : ℝ} (ht0 : 0 ≤ t) (ht1 : t ≤ 1) (ha : dotR a a = 1)
+    (hp : dotR p p = 1) :
+    1 - angleR a p ^ 2 / 4 ≤ dotR (lerpR a p t) (lerpR a p t) ∧ dotR (lerpR a p t) (lerpR a p t) ≤ 1 := by
+  rw [lerpR_norm_sq a p t ha hp]
+  obtain ⟨_, hcos, _, _⟩ := angleR_unit ha hp
+  obtain ⟨_, hle⟩ := dotR_unit_mem ha hp
+  have h1 := Real.one_sub_sq_div_two_le_cos (x := angleR a p)
+  rw [hcos] at h1
+  have h2 : 0 ≤ t * (1 - t) := mul_nonneg ht0 (by linarith)
+  have h3 : t * (1 - t) ≤ 1 / 4 := by nlinarith [sq_nonneg (t - 1 / 2)]
+  have h4 : 0 ≤ 1 - dotR a p := by linarith
+  have h5 : 1 - dotR a p ≤ angleR a p ^ 2 / 2 := by linarith
+  constructor
+  · nlinarith [mul_le_mul h3 h5 h4 (by norm_num : (0 : ℝ) ≤ 1 / 4)]
+  · nlinarith [mul_nonneg h2 h4]
+
+/-- two points of the same arc: `slerp a p s · slerp a p t = cos ((s - t) γ)` -/
+theorem slerp_core2 {S C s c s' c' : ℝ} (h1 : S ^ 2 + C ^ 2 = 1) (hS : S ≠ 0) :
+    ((S * c - C * s) / S) * ((S * c' - C * s') / S) + (s / S) * (s' / S)
+      + (((S * c - C * s) / S) * (s' / S) + (s / S) * ((S * c' - C * s') / S)) * C = c * c' + s * s' := by
+  field_simp
+  linear_combination (-(s * s')) * h1
+
+theorem dotR_comb2 (a b : R3) (wa wb wa' wb' : ℝ) :
+    dotR (addR (scaleR a wa) (scaleR b wb)) (addR (scaleR a wa') (scaleR b wb'))
+      = wa * wa' * dotR a a + wb * wb' * dotR b b + (wa * wb' + wb * wa') * dotR a b := by
+  simp only [dotR, addR, scaleR]; ring
+
+theorem slerpR_dot_slerpR {a p : R3} (s t : ℝ) (ha : dotR a a = 1) (hp : dotR p p = 1)
+    (hγ : slerpSwitch ≤ angleR a p) (hπ : angleR a p < π) :
+    dotR (slerpR a p s) (slerpR a p t) = Real.cos ((s - t) * angleR a p) := by
+  obtain ⟨_, hcos, _, _⟩ := angleR_unit ha hp
+  have hpos : 0 < angleR a p := lt_of_lt_of_le slerpSwitch_pos hγ
+  have hS : Real.sin (angleR a p) ≠ 0 := (Real.sin_pos_of_pos_of_lt_pi hpos hπ).ne'
+  unfold slerpR
+  simp only [if_neg (not_lt.mpr hγ)]
+  generalize angleR a p = γ at *
+  have es : (1 - s) * γ = γ - s * γ := by ring
+  have et : (1 - t) * γ = γ - t * γ := by ring
+  have est : (s - t) * γ = s * γ - t * γ := by ring
+  have c := slerp_core2 (s := Real.sin (s * γ)) (c := Real.cos (s * γ)) (s' := Real.sin (t * γ))
+    (c' := Real.cos (t * γ)) (Real.sin_sq_add_cos_sq γ) hS
+  rw [dotR_comb2, ha, hp, ← hcos, es, et, est, Real.sin_sub, Real.sin_sub, Real.cos_sub]
+  refine Eq.trans ?_ c; ring
+
+theorem dotR_sub_self (r v : R3) :
+    dotR (subR r v) (subR r v) = dotR r r + dotR v v - 2 * dotR r v := by
+  simp only [dotR, subR]; ring
+
+/-! ### `vector_difference` is `sin (γ/2)` -/
+
+theorem sin_half_facts {γ : ℝ} (h0 : 0 ≤ γ) (h1 : γ ≤ π) :
+    0 ≤ Real.sin (γ / 2) ∧ Real.sin (γ / 2) ^ 2 = (1 - Real.cos γ) / 2 := by
+  refine ⟨Real.sin_nonneg_of_nonneg_of_le_pi (by linarith) (by linarith [Real.pi_pos]), ?_⟩
+  have e : Real.cos γ = Real.cos (2 * (γ / 2)) := by congr 1; ring
+  rw [e, Real.cos_two_mul, Real.cos_sq']; ring
+
+/-- the near branch: half the chord -/
+theorem vectorDifference_near {a b : R3} (ha : dotR a a = 1) (hb : dotR b b = 1) :
+    1 / 2 * lengthR (subR a b) = Real.sin (angleR a b / 2) := by
+  obtain ⟨_, hcos, g0, g1⟩ := angleR_unit ha hb
+  obtain ⟨s0, s2⟩ := sin_half_facts g0 g1
+  refine (sq_eq_sq₀ (by unfold lengthR; positivity) s0).mp ?_
+  have hrad : (subR a b).x * (subR a b).x + (subR a b).y * (subR a b).y + (subR a b).z * (subR a b).z
+      = 2 - 2 * dotR a b := by
+    simp only [dotR, subR] at *
+    linear_combination ha + hb
+  have hnn : 0 ≤ 2 - 2 * dotR a b := by linarith [(dotR_unit_mem ha hb).2]
+  rw [s2, hcos, mul_pow, lengthR, hrad, Real.sq_sqrt hnn]; ring
+
+/-- `|a × (m / L)|² = (|a|²|m|² - (a·m)²) / L²` -/
+theorem cross_div_norm_sq (a m : R3) {L : ℝ} (hL : L ≠ 0) :
+    dotR (crossR a ⟨m.x / L, m.y / L, m.z / L⟩) (crossR a ⟨m.x / L, m.y / L, m.z / L⟩)
+      = (dotR a a * dotR m m - dotR a m ^ 2) / L ^ 2 := by
+  simp only [dotR, crossR]
+  field_simp
+  ring
+
+/-- the far branch: `|a × normalize ((a+b)/2)|` -/
+theorem vectorDifference_far {a b : R3} (ha : dotR a a = 1) (hb : dotR b b = 1) (hπ : angleR a b < π) :
+    lengthR (crossR a (normalizeR (lerpR a b (1 / 2)))) = Real.sin (angleR a b / 2) := by
+  obtain ⟨hang, hcos, g0, g1⟩ := angleR_unit ha hb
+  obtain ⟨s0, s2⟩ := sin_half_facts g0 g1
+  have hC : -1 < dotR a b := by rw [hang] at hπ; exact Real.arccos_lt_pi.mp hπ
+  have hmm : dotR (lerpR a b (1 / 2)) (lerpR a b (1 / 2)) = (1 + dotR a b) / 2 := by
+    simp only [dotR, lerpR] at *
+    linear_combination (1 / 4 : ℝ) * ha + (1 / 4 : ℝ) * hb
+  have ham : dotR a (lerpR a b (1 / 2)) = (1 + dotR a b) / 2 := by
+    simp only [dotR, lerpR] at *
+    linear_combination (1 / 2 : ℝ) * ha
+  have hLpos : 0 < lengthR (lerpR a b (1 / 2)) := by
+    rw [lengthR_eq, hmm]; exact Real.sqrt_pos.mpr (by linarith)
+  have hL2 : lengthR (lerpR a b (1 / 2)) ^ 2 = (1 + dotR a b) / 2 := by
+    rw [lengthR_eq, hmm, Real.sq_sqrt (by linarith)]
+  have hnorm : normalizeR (lerpR a b (1 / 2)) =
+      ⟨(lerpR a b (1 / 2)).x / lengthR (lerpR a b (1 / 2)), (lerpR a b (1 / 2)).y / lengthR (lerpR a b (1 / 2)),
+        (lerpR a b (1 / 2)).z / lengthR (lerpR a b (1 / 2))⟩ := by
+    unfold normalizeR
+    simp only [if_neg hLpos.ne']
+  refine (sq_eq_sq₀ (by unfold lengthR; positivity) s0).mp ?_
+  rw [lengthR_eq, Real.sq_sqrt (dotR_self_nonneg _), hnorm, cross_div_norm_sq a _ hLpos.ne', hL2, hmm, ham, ha, s2,
+    hcos]
+  have : (1 + dotR a b) ≠ 0 := by linarith
+  field_simp
+  ring
+
+/-- **`vector_difference` over `ℝ`**: for unit vectors at angle `γ < π`, whichever branch is taken, the result
+is `sin (γ/2)`. -/
+theorem vectorDifferenceR_eq {a b : R3} (ha : dotR a a = 1) (hb : dotR b b = 1) (hπ : angleR a b < π) :
+    vectorDifferenceR a b = Real.sin (angleR a b / 2) := by
+  unfold vectorDifferenceR
+  simp only
+  split_ifs
+  · exact vectorDifference_near ha hb
+  · exact vectorDifference_far ha hb hπ
+
+/-! ### the radial round trip at the level of vectors -/
+
+/-- **Radial round trip for points of the arc `a → p`** (exact real arithmetic, exact `2 arcsin`).
+Let `a`, `p` be unit vectors at angle `γ ∈ [SLERP_SWITCH, π)` and `v = slerp a p s` a point of the arc between
+them (`0 ≤ s ≤ 1`).  The forward map computes `h = vector_difference a v / vector_difference a p`; the inverse
+computes `k = vector_difference a p`, `t = 2 arcsin (h k) / (2 arcsin k)` and returns `slerp a p t`.  Then `t = s`
+and the returned point is `v`. -/
+theorem radial_roundtrip_vector {a p : R3} {s : ℝ} (hs0 : 0 ≤ s) (hs1 : s ≤ 1)
+    (ha : dotR a a = 1) (hp : dotR p p = 1) (hγ : slerpSwitch ≤ angleR a p) (hπ : angleR a p < π) :
+    let v := slerpR a p s
+    let h := vectorDifferenceR a v / vectorDifferenceR a p
+    let k := vectorDifferenceR a p
+    let t := (2 * Real.arcsin (h * k)) / (2 * Real.arcsin k)
+    t = s ∧ slerpR a p t = v := by
+  intro v h k t
+  have hpos : 0 < angleR a p := lt_of_lt_of_le slerpSwitch_pos hγ
+  obtain ⟨hvu, _, _⟩ := slerpR_spec s ha hp hγ hπ
+  have hav : angleR a v = s * angleR a p := slerpR_angle hs0 hs1 ha hp hγ hπ
+  have hav0 : 0 ≤ s * angleR a p := by positivity
+  have hav1 : s * angleR a p ≤ angleR a p := by
+    have := mul_le_mul_of_nonneg_right hs1 hpos.le; linarith
+  have e1 : vectorDifferenceR a v = Real.sin (s * angleR a p / 2) := by
+    rw [vectorDifferenceR_eq ha hvu (by rw [hav]; linarith), hav]
+  have e2 : vectorDifferenceR a p = Real.sin (angleR a p / 2) := vectorDifferenceR_eq ha hp hπ
+  have ht : t = s := by
+    show (2 * Real.arcsin (vectorDifferenceR a v / vectorDifferenceR a p * vectorDifferenceR a p)) /
+      (2 * Real.arcsin (vectorDifferenceR a p)) = s
+    rw [e1, e2, radial_t_exact hav0 hav1 hpos hπ.le]
+    exact mul_div_cancel_right₀ _ hpos.ne'
+  exact ⟨ht, by rw [ht]⟩
+
+/-- **Radial round trip for points of the arc `a → p`, with `safe_acos`.**  Same situation, but `t` computed with
+the real twin `safeAcosR` of the code: the returned point is a unit vector within Euclidean distance `5e-16`
+of `v` (exact real arithmetic; floating-point rounding is not modelled). -/
+theorem radial_roundtrip_vector_safeAcos {a p : R3} {s : ℝ} (hs0 : 0 ≤ s) (hs1 : s ≤ 1)
+    (ha : dotR a a = 1) (hp : dotR p p = 1) (hγ : slerpSwitch ≤ angleR a p) (hπ : angleR a p < π) :
+    let v := slerpR a p s
+    let h := vectorDifferenceR a v / vectorDifferenceR a p
+    let k := vectorDifferenceR a p
+    let t := safeAcosR (h * k) / safeAcosR k
+    dotR (slerpR a p t) (slerpR a p t) = 1 ∧ lengthR (subR (slerpR a p t) v) ≤ 5e-16 := by
+  intro v h k t
+  have hpos : 0 < angleR a p := lt_of_lt_of_le slerpSwitch_pos hγ
+  obtain ⟨hvu, _, _⟩ := slerpR_spec s ha hp hγ hπ
+  obtain ⟨hru, _, _⟩ := slerpR_spec t ha hp hγ hπ
+  have hav : angleR a v = s * angleR a p := slerpR_angle hs0 hs1 ha hp hγ hπ
+  have hav0 : 0 ≤ s * angleR a p := by positivity
+  have hav1 : s * angleR a p ≤ angleR a p := by
+    have := mul_le_mul_of_nonneg_right hs1 hpos.le; linarith
+  have e1 : vectorDifferenceR a v = Real.sin (s * angleR a p / 2) := by
+    rw [vectorDifferenceR_eq ha hvu (by rw [hav]; linarith), hav]
+  have e2 : vectorDifferenceR a p = Real.sin (angleR a p / 2) := vectorDifferenceR_eq ha hp hπ
+  have key := radial_roundtrip_safeAcos hav0 hav1 hpos hπ.le
+  have ht : t = safeAcosR (Real.sin (s * angleR a p / 2) / Real.sin (angleR a p / 2) *
+      Real.sin (angleR a p / 2)) / safeAcosR (Real.sin (angleR a p / 2)) := by
+    show safeAcosR (vectorDifferenceR a v / vectorDifferenceR a p * vectorDifferenceR a p) /
+      safeAcosR (vectorDifferenceR a p) = _
+    rw [e1, e2]
+  simp only at key
+  rw [← ht] at key
+  refine ⟨hru, ?_⟩
+  have hdot : dotR (slerpR a p t) v = Real.cos ((t - s) * angleR a p) := slerpR_dot_slerpR t s ha hp hγ hπ
+  have hδ : |(t - s) * angleR a p| ≤ 5e-16 := by
+    have : (t - s) * angleR a p = t * angleR a p - s * angleR a p := by ring
+    rw [this]; exact key
+  have hcos := Real.one_sub_sq_div_two_le_cos (x := (t - s) * angleR a p)
+  show √(dotR (subR (slerpR a p t) v) (subR (slerpR a p t) v)) ≤ 5e-16
+  rw [dotR_sub_self, hru, hvu, hdot]
+  refine Real.sqrt_le_iff.mpr ⟨by norm_num, ?_⟩
+  have h2 : ((t - s) * angleR a p) ^ 2 ≤ (5e-16 : ℝ) ^ 2 := by
+    rw [← sq_abs]; exact pow_le_pow_left₀ (abs_nonneg _) hδ 2
+  linarith
+
+/-! ## non-vacuity -/
+
+/-- the switch constant is what the source says: the `f64` nearest `1e-3` -/
+example : safeAcosSwitchQ = 1152921504606847 / 2 ^ 60 := safeAcosSwitchQ_bounds.1
+
+/-- both branches of `safeAcosR` are inhabited: `0 < switch` (series branch at `x = 0`), `1/2 ≥ switch` -/
+example : safeAcosR 0 = 0 := by
+  unfold safeAcosR; rw [if_pos safeAcosSwitch_pos]; ring
+example : safeAcosR (1 / 2) = Real.arccos (1 - 2 * (1 / 2) * (1 / 2)) := by
+  unfold safeAcosR; rw [if_neg (by linarith [safeAcosSwitch_le])]
+
+/-- radial round trip at `AV = π/3`, `AP = π/2` -/
+example : (2 * Real.arcsin (Real.sin (π / 3 / 2) / Real.sin (π / 2 / 2) * Real.sin (π / 2 / 2))) /
+    (2 * Real.arcsin (Real.sin (π / 2 / 2))) * (π / 2) = π / 3 :=
+  radial_roundtrip_exact (AV := π / 3) (AP := π / 2) (by positivity)
+    (by linarith [Real.pi_pos]) (by positivity) (by linarith [Real.pi_pos])
+
+/-- the hypotheses of the vector theorems hold for `a = e₁`, `p = e₂` (`γ = π/2`) -/
+theorem e1_e2_hyps : dotR ⟨1, 0, 0⟩ ⟨1, 0, 0⟩ = 1 ∧ dotR ⟨0, 1, 0⟩ ⟨0, 1, 0⟩ = 1 ∧
+    slerpSwitch ≤ angleR ⟨1, 0, 0⟩ ⟨0, 1, 0⟩ ∧ angleR ⟨1, 0, 0⟩ ⟨0, 1, 0⟩ < π := by
+  have h1 : dotR ⟨1, 0, 0⟩ ⟨1, 0, 0⟩ = 1 := by norm_num [dotR]
+  have h2 : dotR ⟨0, 1, 0⟩ ⟨0, 1, 0⟩ = 1 := by norm_num [dotR]
+  have e : angleR ⟨1, 0, 0⟩ ⟨0, 1, 0⟩ = π / 2 := by
+    rw [(angleR_unit h1 h2).1]
+    have : dotR ⟨1, 0, 0⟩ ⟨0, 1, 0⟩ = 0 := by norm_num [dotR]
+    rw [this, Real.arccos_zero]
+  refine ⟨h1, h2, ?_, ?_⟩
+  · rw [e]
+    have h : slerpSwitchQ ≤ 1 := by decide +kernel
+    have : slerpSwitch ≤ 1 := by unfold slerpSwitch; exact_mod_cast h
+    linarith [Real.pi_gt_three]
+  · rw [e]; linarith [Real.pi_pos]
+
+/-- series branch (`x = 1/2000 <` switch) and `arccos` branch (`x = 1/2`) of the error bound -/
+example : |safeAcosR (1 / 2000) - 2 * Real.arcsin (1 / 2000)| ≤ 1e-15 :=
+  safeAcosR_error (by norm_num) (by norm_num)
+example : (1 / 2000 : ℝ) < safeAcosSwitch := by linarith [safeAcosSwitch_ge]
+example : |safeAcosR (1 / 2) - 2 * Real.arcsin (1 / 2)| ≤ 1e-15 :=
+  safeAcosR_error (by norm_num) (by norm_num)
+
+/-- radial round trip with `safeAcosR` at `AV = π/3`, `AP = π/2` -/
+example : |safeAcosR (Real.sin (π / 3 / 2) / Real.sin (π / 2 / 2) * Real.sin (π / 2 / 2)) /
+    safeAcosR (Real.sin (π / 2 / 2)) * (π / 2) - π / 3| ≤ 5e-16 :=
+  radial_roundtrip_safeAcos (AV := π / 3) (AP := π / 2) (by positivity)
+    (by linarith [Real.pi_pos]) (by positivity) (by linarith [Real.pi_pos])
+
+/-- `slerp`, `vector_difference` and the vector-level round trips on the arc `e₁ → e₂`, `s = 1/3` -/
+example : dotR (slerpR ⟨1, 0, 0⟩ ⟨0, 1, 0⟩ (1 / 3)) (slerpR ⟨1, 0, 0⟩ ⟨0, 1, 0⟩ (1 / 3)) = 1 :=
+  (slerpR_spec (1 / 3) e1_e2_hyps.1 e1_e2_hyps.2.1 e1_e2_hyps.2.2.1 e1_e2_hyps.2.2.2).1
+example : vectorDifferenceR ⟨1, 0, 0⟩ ⟨0, 1, 0⟩ = Real.sin (angleR ⟨1, 0, 0⟩ ⟨0, 1, 0⟩ / 2) :=
+  vectorDifferenceR_eq e1_e2_hyps.1 e1_e2_hyps.2.1 e1_e2_hyps.2.2.2
+example :
+    let a : R3 := ⟨1, 0, 0⟩
+    let p : R3 := ⟨0, 1, 0⟩
+    let v := slerpR a p (1 / 3)
+    let h := vectorDifferenceR a v / vectorDifferenceR a p
+    let k := vectorDifferenceR a p
+    let t := (2 * Real.arcsin (h * k)) / (2 * Real.arcsin k)
+    t = 1 / 3 ∧ slerpR a p t = v :=
+  radial_roundtrip_vector (by norm_num) (by norm_num) e1_e2_hyps.1 e1_e2_hyps.2.1 e1_e2_hyps.2.2.1
+    e1_e2_hyps.2.2.2
+example :
+    let a : R3 := ⟨1, 0, 0⟩
+    let p : R3 := ⟨0, 1, 0⟩
+    let v := slerpR a p (1 / 3)
+    let h := vectorDifferenceR a v / vectorDifferenceR a p
+    let k := vectorDifferenceR a p
+    let t := safeAcosR (h * k) / safeAcosR k
+    dotR (slerpR a p t) (slerpR a p t) = 1 ∧ lengthR (subR (slerpR a p t) v) ≤ 5e-16 :=
+  radial_roundtrip_vector_safeAcos (by norm_num) (by norm_num) e1_e2_hyps.1 e1_e2_hyps.2.1
+    e1_e2_hyps.2.2.1 e1_e2_hyps.2.2.2
 
 end A5.RadialRoundTrip
